@@ -22,6 +22,7 @@ func init() {
 		Rule{ID: "R09c", Doc: "limits per listener", Floor: 6, Run: r09c},
 		Rule{ID: "R09d", Doc: "no reordering of answer/authority records", Floor: 1, AllVariants: true, Run: r09d},
 		Rule{ID: "R02a", Doc: "packLen of every record type equals the size its pack writes (the fit test `off + packLen() > size` relies on it; shared with C02)", Floor: 20, AllVariants: true, Run: r02a},
+		Rule{ID: "R02d", Doc: "the TC bit is encoded at its RFC 1035 position (shared with C02)", Floor: 10, AllVariants: true, Run: r02d},
 	)
 }
 
@@ -498,6 +499,35 @@ func r09c(c *core.Ctx) {
 			ok := false
 			fromQuery := false
 			desc := core.Expr(sz)
+			// max(x, 512) spelled with the builtin
+			if mc, isCall := sz.(*ssa.Call); isCall {
+				if bi, isB := mc.Call.Value.(*ssa.Builtin); isB && bi.Name() == "max" && len(mc.Call.Args) == 2 {
+					var other ssa.Value
+					for i, a := range mc.Call.Args {
+						if k, isC := core.ConstInt(a); isC && k == 512 {
+							other = mc.Call.Args[1-i]
+						}
+					}
+					if other != nil {
+						ok = true
+						for _, o := range core.Origins(other, core.OriginOpts{}) {
+							if k, isC := core.ConstInt(o); isC && k == 0 {
+								continue
+							}
+							if u, isU := o.(*ssa.UnOp); isU && core.IsFieldAddr(u.X, "ResourceHdr", "Class") {
+								hexpr := core.Expr(u.X)
+								if strings.Contains(hexpr, "m.Additionals[") && hasCond(u.Block(), ".Type == 41)", true) {
+									fromQuery = true
+								} else {
+									desc += " (class read from " + hexpr + ")"
+								}
+								continue
+							}
+							ok = false
+						}
+					}
+				}
+			}
 			if p, isPhi := sz.(*ssa.Phi); isPhi {
 				has512 := false
 				var other ssa.Value
